@@ -48,6 +48,14 @@ pub fn generate(g: &mut Gen, thorough: bool) {
                 })
                 .collect();
             g.push(format!("S_C06\tcart\t{e}\t{}", data_of(&geo)), "oracle-geocart", true);
+            // (millimetres from a pole, but not on it: a point with a longitude like any other)
+            let hp = std::f64::consts::FRAC_PI_2;
+            let near: Vec<[f64; 4]> = [1e-12, 1e-11, 1e-10, 5e-10, 9e-10, 2e-9, 1e-8, 1e-6]
+                .iter()
+                .enumerate()
+                .map(|(i, c)| [g.rng.uniform(-3.0, 3.0), (hp - c) * if i % 2 == 0 { 1.0 } else { -1.0 }, [0.0, 100.0, -5000.0, 9.0e4][i % 4], 2000.0])
+                .collect();
+            g.push(format!("S_C06\tcart\t{e}\t{}", data_of(&near)), "oracle-geocart-next-to-the-poles", true);
             let mut lats: Vec<[f64; 4]> = (0..6).map(|_| [g.rng.uniform(0.01, 1.55), g.rng.uniform(0.01, 1.55), 0.0, 0.0]).collect();
             // the last degree before the pole, where the iterative inverses change regime
             lats.push([g.rng.uniform(1.5533, 1.5570), g.rng.uniform(1.5570, 1.5620), 0.0, 0.0]);
